@@ -461,3 +461,43 @@ ASSUMPTIONS = [
     "asyncio is trusted behind the contract stubs: a cancelled task/future does not continue, asyncio.timeout cancels what it guards, locks are mutually exclusive, queues are FIFO, tasks switch only at awaits; interleavings inside one await are represented by 'the awaited object completes with any admissible value, times out, or the connection closes'",
     "Disconnect/Connect request objects answer, or raise RequestResponseError (RequestResponse.request's documented contract)",
 ]
+
+
+# ------------------------------------------------------------------ a send that finds the tunnel closed by the user
+
+from contracts import c24_tunnel_send as _c24  # noqa: E402
+from xknx.cemi import CEMIFrame as _CEMIFrame  # noqa: E402
+from xknx.exceptions import CommunicationError as _CommunicationError, TunnellingAckError as _TunnellingAckError  # noqa: E402
+from xknx.io.tunnel import UDPTunnel as _UDPTunnel, _Tunnel as _TunnelBase  # noqa: E402
+
+
+async def _request_finds_channel_closed(self, frame):
+    """UDPTunnel._send_tunnelling_request while the user disconnects: the n-th request gets no ACK
+    (TunnellingAckError) or the tunnel is closed meanwhile - the next _tunnelling_request then finds no
+    communication channel (CommunicationError, raised by the real _tunnelling_request)."""
+    ghost("T").append(("request", frame.communication_channel_id, frame.sequence_counter))
+    if nondet(2):
+        self.communication_channel = None  # disconnect() ran while this request waited for its ACK
+    raise _TunnellingAckError("no ack")
+
+
+@lemma("C25", params=dict(t=_c24.UDP, cemi=_c24.CEMI), stubs=[(_CEMIFrame, "to_knx", _c24._to_knx), (_UDPTunnel, "_send_tunnelling_request", _request_finds_channel_closed), (_TunnelBase, "_tunnel_lost", _c24._tunnel_lost)])
+def a_send_that_finds_the_tunnel_closed_gives_up_at_once(t, cemi):
+    """UDP send_cemi whose requests are never acknowledged, with the user's disconnect() completing at any
+    point in between: as soon as a request finds no communication channel the error goes to the caller -
+    no further request, no _tunnel_lost(), no reconnect (nothing is sent after the user disconnected)."""
+    assume(t.communication_channel is not None and t._reconnect_task is None)
+    ghost("new_channel").append(9)
+    try:
+        run(t.send_cemi(cemi))
+        assert False, "an unacknowledged send cannot succeed"
+    except _CommunicationError:
+        pass
+    tr = ghost("T")
+    requests = len([x for x in tr if isinstance(x, tuple) and x[0] == "request"])
+    if "await_reconnect" not in tr and t.communication_channel is None:
+        # the channel was closed by the user during the first or the second request
+        assert "tunnel_lost" not in tr and t._reconnect_task is None and requests <= 2
+    else:
+        # nobody closed it: both requests failed, then the tunnel is given up / reconnected
+        assert requests >= 2 and "tunnel_lost" in tr
